@@ -370,6 +370,9 @@ class SparseHandle:
 # --------------------------------------------------------------------------- observing proxy
 
 
+RAW_TRANSFER_LIMIT = 0x7000  # stands in for the kernel's 0x7ffff000 bytes per read(2)
+
+
 class OpenInterposer:
     """While installed, binary read-only files that *repository code* opens by path come back wrapped in a ProxyFile: the
     monitors that work on caller-supplied handles (fault injection, moving the handle between reads, call logs) then also reach
@@ -378,6 +381,7 @@ class OpenInterposer:
     def __init__(self, repo_mark: str = "/dissect/hypervisor/"):
         self.repo_mark = repo_mark
         self.wrapped = 0
+        self.raw_opens = 0
         self._orig = None
 
     def _from_repo(self) -> bool:
@@ -406,6 +410,9 @@ class OpenInterposer:
                 if "b" in mode and "r" in mode and "+" not in mode and not isinstance(file, int) and me._from_repo():
                     p = ProxyFile(fh, name=getattr(fh, "name", str(file)))
                     p.owned_by_library = True
+                    if isinstance(fh, io.RawIOBase):
+                        p.raw_limit = RAW_TRANSFER_LIMIT
+                        me.raw_opens += 1
                     ALL_PROXIES.remove(p)
                     me.wrapped += 1
                     return p
@@ -492,6 +499,8 @@ class ProxyFile:
         if name:
             self.name = name
         self.budget = budget
+        self.raw_limit = None
+        self.raw_limited_reads = 0
         self.bytes_read = 0
         self.reads = 0
         self.seeks = 0
@@ -531,6 +540,11 @@ class ProxyFile:
             return b""
         if fault == "short" and n is not None and n > 1:
             n = n // 2
+        if self.raw_limit is not None and n is not None and n > self.raw_limit:
+            # a raw (unbuffered) file transfers at most so much per call - on Linux 0x7ffff000 bytes; scaled down here so
+            # that ordinary request sizes reach it. Only handles the code under test itself opened unbuffered get a limit.
+            n = self.raw_limit
+            self.raw_limited_reads += 1
         pos = self._fh.tell()
         if (n is None or n < 0) and self.budget is not None and self._size is not None:
             if self._size - pos > self.budget:
